@@ -300,7 +300,9 @@ def process_failures(R, logs, fails, max_shrinks):
     fails = sorted(fails, key=lambda f: 1 if f["dim"] in ("syncer-replay", "restore") else 0)
     for f in fails:
         if f["dim"] in ("missing", "runerr"):
-            out.append(dict(name="%s-%s" % (f["dim"], f["log"]), case=dict(log=f["log"], detail=f["what"]),
+            L = logs[f["log"]]
+            lines = [L["line"]] + ([L["vars"][f["a"]]] if f.get("a") in L["vars"] else list(L["vars"].values())[:2])
+            out.append(dict(name="%s-%s" % (f["dim"], f["log"]), case=dict(cases_tsv=lines, detail=f["what"]),
                             what=f["what"], signature=None))
             continue
         key = (f["log"], f["dim"])
